@@ -206,6 +206,7 @@ def run(ctx):
     ctx.extra['traces_validated_against_impl'] = len(cases) * 2
     ctx.extra['disagreements'] = ndis
     ctx.extra['exhaustive'] = not ctx.quick
+    ctx.run_modes()
     return ctx.finish(
         LEVEL,
         explanation='Theorems (all frame shapes, crop sizes, buffer shapes, peaks, buffer contents) about Model/Crop.v; '
